@@ -265,6 +265,27 @@ class SymKeyDict:
         return self._d.values()
 
 
+class IoModel:
+    """drop-in for the `io` module: BytesIO over proxy bytes is the stream model"""
+
+    def __init__(self):
+        import io as _io
+        self._io = _io
+
+    def BytesIO(self, data=b""):
+        if isinstance(data, SymBytes):
+            return SymStream(data)
+        return self._io.BytesIO(data)
+
+    def BufferedReader(self, raw, *a):
+        if isinstance(raw, SymStream):
+            return raw
+        return self._io.BufferedReader(raw, *a)
+
+    def __getattr__(self, n):
+        return getattr(self._io, n)
+
+
 class NonTerminating(Exception):
     """the code under contract keeps reading a finite stream without making progress"""
 
